@@ -1,3 +1,4 @@
+import LachesisVerif.Gen.FactsC25m
 import LachesisVerif.Gen.FactsC25b
 /-!
 # Structural expectations for C25 (regenerated facts `Gen.FactsC25b`)
@@ -45,3 +46,10 @@ theorem flagged_drop_and_flush :
     Gen.FactsC25b.flaggedFlushCleanBeforeReset = true := by decide
 
 end FactsC25
+
+/-- `multidb.Producer` over several pools / flagged producers: `Initialize` threads the flush id through
+    the wrapped producers (plain assignment, no shadowing `:=`), and `Flush` reaches every producer — so a
+    crash between the flushes of two producers is reported as an unsynchronised state on restart. -/
+theorem FactsC25.across_producers :
+    Gen.FactsC25m.initializeThreadsFlushID = true ∧ Gen.FactsC25m.initializeShadowsFlushID = false ∧
+    Gen.FactsC25m.initializeCallsEvery = true ∧ Gen.FactsC25m.flushCallsEvery = true := by decide
